@@ -8,6 +8,7 @@ from ..core import FUNC, call_attr, calls_in, const, dotted, is_const, kwarg, no
 from .c09 import waiter_rule, _stored_in_cancelled_table
 
 EXPLANATION = [
+    "C16.subscription-of-live-bearer: every creation of a `subscribers[bearer]` entry in the GATT server is guarded by an identity test of the bearer's connection against device.lookup_connection(handle) (write handlers run in tasks, possibly after the disconnection was processed).",
     'C16.pending-table-scope: the per-connection table of pending enhanced credit-based requests is dropped only by ChannelManager.on_disconnection; everything else removes its own identifier from the inner table.',
     'C16.loss-not-swallowed: in bumble.device / bumble.host, no handler that swallows a failure of an awaited HCI command (catching a class that covers TransportLostError without re-raising or returning) is followed by another await (other than a further command, which fails at once) in the same function.',
     'C16.source-loss-reported: every transport read loop that records a failure with terminated.set_exception also calls on_transport_lost in the same handler: the host is told through its sink interface.',
@@ -698,7 +699,34 @@ def pending_table_scope(ctx):
     R.check(n >= 1, rule, 'bumble.l2cap.ChannelManager | outer-table removals', f'{n} (on_disconnection)', 'none found')
 
 
+def subscription_of_live_bearer(ctx):
+    """Write requests are processed in spawned tasks, i.e. possibly after Server.on_disconnection() has removed the bearer's
+    state: whatever creates an entry of `subscribers` first checks that the bearer's connection is still the device's
+    connection for that handle."""
+    R, p = ctx.r, ctx.p
+    rule = 'C16.subscription-of-live-bearer'
+    ci = p.cls('bumble.gatt_server.Server')
+    if ci is None:
+        R.bad(rule, 'bumble.gatt_server.Server', 'anchor missing')
+        return
+    n = 0
+    for name, fn in sorted(ci.methods.items()):
+        sites = [c for c in calls_in(fn) if call_attr(c) == 'setdefault' and dotted(c.func.value) == 'self.subscribers']
+        sites += [s_ for s_ in walk_local(fn) if isinstance(s_, ast.Assign) and isinstance(s_.targets[0], ast.Subscript) and dotted(s_.targets[0].value) == 'self.subscribers']
+        for c in sites:
+            n += 1
+            live = False
+            for t, pol in paths.flat_guards(c, stop=fn):
+                if isinstance(t, ast.Compare) and len(t.ops) == 1 and 'lookup_connection' in norm(t):
+                    live = live or (isinstance(t.ops[0], ast.Is) and pol) or (isinstance(t.ops[0], ast.IsNot) and not pol)
+            R.check(live, rule, f'bumble.gatt_server.Server.{name} | creates a subscribers entry', 'only for a bearer whose connection is still registered with the device', f'{name} creates `subscribers[bearer]` without checking that the link still exists: a CCCD write whose task runs after the Disconnection Complete was processed re-creates the state of the closed bearer, which is then never removed', p.loc(c))
+    R.check(n >= 1, rule, 'bumble.gatt_server.Server | subscribers entry creations', f'{n}', 'none found')
+    dis = ci.methods.get('on_disconnection')
+    R.check(dis is not None and any(call_attr(c) == 'pop' and dotted(c.func.value) == 'self.subscribers' for c in calls_in(dis)), rule, 'bumble.gatt_server.Server.on_disconnection | removes the entry', 'subscribers.pop(bearer)', 'on_disconnection no longer removes the subscribers entry', p.loc(dis) if dis is not None else '')
+
+
 RULES = [
+    ('C16.subscription-of-live-bearer', subscription_of_live_bearer),
     ('C16.pending-table-scope', pending_table_scope),
     ('C16.loss-not-swallowed', loss_not_swallowed),
     ('C16.source-loss-reported', source_loss_reported),
